@@ -135,13 +135,54 @@ def absRun : List Msg → List Call → List Nat → List Msg
     absRun next.eraseDups cs rcs
   | ms, _, _ => ms
 
+/-- SPEC DECISION D17 (C04): the return code of coap_remove_option is prescribed — non-zero exactly when the message
+holds an option with that number (a removal needs no room, so D14's "may be refused" does not extend to it; the first
+such option then goes, `Spec.applyEdit … (.remove n)`); on a message without it the call returns 0 and changes nothing.
+Every other call: non-zero = performed, 0 = refused = nothing changes (D14). -/
+def rcOk (m : Msg) (c : Call) (acc : Bool) : Bool :=
+  match c with
+  | .removeOption n => acc == Spec.hasOpt n m.opts
+  | _ => true
+
+/-- all admissible abstract results under CLAIMED return codes (`acc` k = call k returned non-zero) — the claims may be
+M's (first pass) or the implementation's own (`respec`, Driver/EditSpec.lean).  `.error k`: no abstract run has these
+return codes — call k (0-based) is a removal whose return code contradicts D17 whichever alternative (D13) holds. -/
+def absRunRc : List Msg → List Call → List Bool → Nat → Except Nat (List Msg)
+  | ms, c :: cs, a :: as, k =>
+    let ok := ms.filter fun m => rcOk m c a
+    if ok.isEmpty then .error k else
+    let next := if a then ok.flatMap fun m => [absCall true m c, absCall false m c] else ok
+    absRunRc next.eraseDups cs as (k + 1)
+  | ms, _, _, _ => .ok ms
+
+def patStr (acc : List Bool) : String :=
+  let s := String.ofList (acc.map fun a => if a then '1' else '0')
+  if s.isEmpty then "-" else s
+
+def showCall : Call → String
+  | .addToken _ => "T" | .updateToken _ => "K" | .addData _ => "D"
+  | .addOption n _ => "O" ++ toString n | .insertOption n _ => "I" ++ toString n
+  | .updateOption n _ => "U" ++ toString n | .removeOption n => "R" ++ toString n
+
+/-- `norun call=<k, 1-based> op=<call> rc=<0|1>`: the claimed return code of that call is one S never prescribes -/
+def norunStr (calls : List Call) (acc : List Bool) (k : Nat) : String :=
+  "norun call=" ++ toString (k + 1) ++ " op=" ++ ((calls[k]?).map showCall).getD "?" ++
+    " rc=" ++ (if (acc[k]?).getD false then "1" else "0")
+
+def altsStr (p : Proto) (alts : List Msg) : String :=
+  String.intercalate " || " (alts.map fun a =>
+    "msg=" ++ showMsgD (Spec.onWire p a) ++ " bytes=" ++ dg (Spec.encode p a))
+
+/-- the S column of a build / edit line under the claimed return codes -/
+def specUnder (p : Proto) (m : Msg) (calls : List Call) (acc : List Bool) : String :=
+  match absRunRc [m] calls acc 0 with
+  | .error k => "rcs=" ++ patStr acc ++ " " ++ norunStr calls acc k
+  | .ok all =>
+    let alts := all.filter fun a => decide (Spec.WF p a)
+    if alts.isEmpty || alts.length > 16 then "skip" else "rcs=" ++ patStr acc ++ " " ++ altsStr p alts
+
 def finishS (p : Proto) (m : Msg) (calls : List Call) (rcs : List Nat) : String :=
-  let alts := (absRun [m] calls rcs).filter fun a => decide (Spec.WF p a)
-  let pat := String.ofList (rcs.map fun rc => if rc = 0 then '0' else '1')
-  if alts.isEmpty || alts.length > 16 then "skip" else
-  "rcs=" ++ (if pat.isEmpty then "-" else pat) ++ " " ++
-    String.intercalate " || " (alts.map fun a =>
-      "msg=" ++ showMsgD (Spec.onWire p a) ++ " bytes=" ++ dg (Spec.encode p a))
+  specUnder p m calls (rcs.map fun rc => rc != 0)
 
 def hdrLen (p : Proto) (wire : Bytes) : Nat :=
   match p, wire with
